@@ -42,6 +42,7 @@ fn main() {
         "check" if args.len() == 4 => std::process::exit(check(&args[2], tier_of(&args[3]))),
         "worker" if args.len() == 7 => worker(&args[2], tier_of(&args[3]), args[4].parse().unwrap(), args[5].parse().unwrap(), &args[6]),
         "replay" if args.len() == 3 => std::process::exit(replay(&args[2])),
+        "observe" if args.len() == 3 => observe(&args[2]),
         "list" => {
             for p in props::registry() {
                 println!("{}", p.id);
@@ -270,13 +271,30 @@ fn check(id: &str, tier: Tier) -> i32 {
         let name = format!("{:016x}.json", ctx::h64(&(v.clause.clone(), v.sig.clone())));
         let path = rdir.join(name);
         let shell: Vec<String> = v.cases.iter().map(|c| c.shell()).collect();
-        // what each case does today (hash of the full observation): `jv replay` reports whether it still does
-        let observed: Vec<String> = v.cases.iter().map(|c| if id == "C20" { String::new() } else { format!("{:016x}", ctx::h64(&serde_json::to_string(&drive::run(c)).unwrap_or_default())) }).collect();
         let doc = serde_json::json!({
             "property": id, "clause": v.clause, "signature": v.sig, "occurrences": v.count,
-            "expected": v.expected, "actual": v.actual, "shell": shell, "cases": v.cases, "observed": observed,
+            "expected": v.expected, "actual": v.actual, "shell": shell, "cases": v.cases,
         });
         let _ = std::fs::write(&path, serde_json::to_vec_pretty(&doc).unwrap());
+        // what each case does today (hash of the full observation), so that `jv replay` can say whether it still does.
+        // Done in a child process with a deadline: the case may be one that aborts or hangs the subject.
+        if v.clause != "process-died-or-hung" && id != "C20" {
+            if let Ok(mut ch) = Command::new(&exe).args(["observe", path.to_str().unwrap()]).stdin(Stdio::null()).stdout(Stdio::null()).stderr(Stdio::null()).spawn() {
+                let dl = Instant::now() + Duration::from_secs(20);
+                loop {
+                    match ch.try_wait() {
+                        Ok(Some(_)) => break,
+                        Ok(None) if Instant::now() > dl => {
+                            let _ = ch.kill();
+                            let _ = ch.wait();
+                            break;
+                        }
+                        Ok(None) => std::thread::sleep(Duration::from_millis(10)),
+                        Err(_) => break,
+                    }
+                }
+            }
+        }
         lines.push(format!("VIOLATION property={} replay={}", id, path.display()));
     }
 
@@ -354,6 +372,17 @@ fn check(id: &str, tier: Tier) -> i32 {
         return 1;
     }
     0
+}
+
+/// add `observed` (one hash of the full observation per case) to a replay file
+fn observe(file: &str) {
+    drive::silence_panics();
+    let Some(mut doc) = std::fs::read(file).ok().and_then(|b| serde_json::from_slice::<serde_json::Value>(&b).ok()) else { return };
+    let cases: Vec<drive::Case> = serde_json::from_value(doc["cases"].clone()).unwrap_or_default();
+    let observed: Vec<String> = cases.iter().map(|c| format!("{:016x}", ctx::h64(&serde_json::to_string(&drive::run(c)).unwrap_or_default()))).collect();
+    doc["observed"] = serde_json::json!(observed);
+    let _ = std::fs::write(file, serde_json::to_vec_pretty(&doc).unwrap());
+    let _ = std::fs::remove_dir_all(drive::work_dir());
 }
 
 fn replay(file: &str) -> i32 {
